@@ -5,6 +5,7 @@ from poly import Poly, ONE, ZERO, sym_int
 from values import Agg, SymV, IntV, BoolV, Ptr
 from rules import common as C
 from rules import draw as D
+from rules import C04
 
 LEVEL = "other"
 
@@ -25,8 +26,9 @@ def run(R):
                      "under the address mode (for the fill methods and the unbatched draw_iter, decided from the clipping facts); "
                      "(b) no panic: every overflow / bounds / unwrap / expect site in the cone is discharged by type ranges, path facts "
                      "(bounded Farkas) or the named invariants; (c) every Err returned originates from a failing interface operation "
-                     "(checked in C12). Not decided: that the in-bounds remainder of a batched draw_iter is drawn exactly as without the "
-                     "out-of-bounds pixels (C03), transports' inner arithmetic (C06/C07).")
+                     "(checked in C12); (d) remainder drawn exactly, for fill_contiguous: C04's colour-stream rule (initial skip = points above / "
+                     "left of the visible part, take/skip per row) is re-decided here. Not decided: that the in-bounds remainder of a "
+                     "batched draw_iter is drawn exactly as without the out-of-bounds pixels (C03), transports' inner arithmetic (C06/C07).")
     R.parallel("C02", "task", [(cfg, q, m) for cfg in R.configs for (q, m) in D.ORIENTATIONS])
 
 
@@ -35,6 +37,10 @@ def task(R, item):
     F = R.facts(cfg)
     orders = {"CASET": C.ctor_order(R, F, D.CASET, 2, "C02", cfg), "RASET": C.ctor_order(R, F, D.RASET, 2, "C02", cfg)}
     entries = [(C.drawtarget_method(F, n), n) for n in ("draw_iter", "fill_contiguous", "fill_solid")]
+    if R.tier == "thorough" or (q, m) in C04.QUICK:
+        # "the in-bounds remainder is drawn exactly as if the out-of-bounds pixels had not been supplied", for
+        # fill_contiguous: the colour-stream rule of C04 (skip above/left, take/skip per row) is re-decided here
+        C04.check_clipped_stream(R, F, cfg, q, m)
     if True:
         otag = "%s|%ddeg%s" % (cfg, q * 90, "+mirror" if m else "")
         for rec, nm in entries:
